@@ -336,6 +336,29 @@ def run(ck):
     if es is not None:
         ok = 'StringKind::NoTr' in pp(es['body']) and any(c.get('m') == 'unwrap_string' for c in H.calls_in(es['body']))
         ck.ob('R3.6', 'static-strings-are-bare', ok, L.loc(es['body']), 'pixmap/colour strings must be NoTr (a translated one is an error)')
+        # .. and handed on as written: the Some(..) result is the unwrapped string itself, through owning/borrowing views only
+        VIEWS_ = {'to_owned', 'clone', 'to_string', 'into', 'as_str', 'as_ref', 'borrow', 'deref'}
+        bad = []
+        n_some = 0
+        for r in H.return_exprs(es['body']):
+            rr = H.strip_refs(r)
+            if not (rr.get('k') == 'Call' and (rr.get('def') or '').endswith('Option::Some') and len(rr['args']) == 1):
+                continue
+            n_some += 1
+            v = H.strip_refs(rr['args'][0])
+            steps = []
+            while v.get('k') == 'MCall':
+                steps.append(v['m'])
+                v = H.strip_refs(v['recv'])
+            odd = [m_ for m_ in steps if m_ not in VIEWS_]
+            b = H.binding_sites(es).get(v.get('hid')) if v.get('k') == 'Path' and v.get('res') == 'local' else None
+            src = b['node'].get('e') if b is not None and b['kind'] == 'letcond' else (b['node'].get('init') if b is not None and b['kind'] == 'let' else None)
+            from_unwrap = src is not None and any(c.get('m') == 'unwrap_string' for c in H.calls_in(src))
+            if odd or not from_unwrap:
+                bad.append('%s%s' % (pp(rr['args'][0], maxlen=50), '' if from_unwrap else ' (not the unwrapped string)'))
+        ck.ob('R3.6', 'static-string-returned-as-is', n_some >= 1 and not bad, L.loc(es['body']),
+              'Some(s) with s the string from unwrap_string(), unchanged' if n_some >= 1 and not bad else
+              'the string handed on is not the string as written (%s): a pixmap path or colour string is altered before it is used, so text that must be refused can be accepted' % (bad or 'no Some(..) result found'), fn=es['path'])
 
     # ---- R3.7 conservative evaluator ---------------------------------------------------------------------------
     if ev is not None:
